@@ -1,7 +1,9 @@
 """C14 - concurrent queries and updates are safe and see whole objects.
 
-LEVEL: PARTIAL. The theorems (coq/theories/C14/Props.v) are about the locking PROTOCOL model; the stream
-`c14race` is an EXPLORATION (race detector build, go-deadlock, version stamps), not a proof."""
+LEVEL: PARTIAL. The theorems (coq/theories/C14/Props.v) are about the locking PROTOCOL model and about the
+GENERATED lock coverage matrix (Gen/Locks.v, translator harness/inpkg/c14_gen.go: every table x column x position in a
+request -> tables the real getAffectedTables locks, stored tables the column's value reads); the stream `c14race` is an
+EXPLORATION (race detector build, go-deadlock, version stamps, comment/downtime lists against the backend), not a proof."""
 import json
 import os
 import shutil
@@ -75,12 +77,23 @@ PROP = Prop(
              "getAffectedTables is increasing; every response row carries one version in all stamped columns (also the referenced host); one "
              "generation (and, with whole-table updaters only, one epoch) per backend table and response; Stats counters add up; sums of equally "
              "stamped columns agree; answers well formed, complete per backend, within their Filter; no race detector report; no go-deadlock "
-             "report; no panic / fatal error / hang")],
+             "report; no panic / fatal error / hang. Backends carry comments and downtimes on hosts and services (fixed ones from the start; in "
+             "every other scenario further ones come and go), full reloads (InitAllTables directly, core restart = new program_start, peer back "
+             "after the stale timeout) are in every update menu, two more clients ask for comments / downtimes / *_with_info of hosts and "
+             "services directly, through reference columns (services.host_*, comments.host_* / service_*) and through the by-group tables: "
+             "every served id list must hold all entries the backend had attached the whole time and only entries it ever attached to that "
+             "object (C14.Lists.list_ok; exact when the backend's comments never change), no id twice, entry texts as in the backend. Requests "
+             "which the generated lock coverage matrix reports as reading an unlocked table are sent by two further clients")],
     trusted_base=[
         "Coq 8.16.1 kernel, vm_compute (access table theorems, the non-vacuity Example, evaluation of the cases); no native_compute",
         "axioms: none (Print Assumptions: closed under the global context, captured per run)",
         "PARTIAL: the theorems are about the protocol model C14/Model.v (instruction lists, per-store RW locks with writer preference, atomic "
         "pointer publication, ghost commit history), not about Go source or the Go memory model",
+        "the lock coverage translator harness/inpkg/c14_gen.go: it asks the real NewRequest + Response.getAffectedTables for the locks (that "
+        "lockStores takes exactly these, skipping virtual tables, is read from the source), and MEASURES what a column reads on one small data "
+        "set (C09's probe data set, three backend flavours): a read that needs other data, or a table whose perturbation (cells bumped / "
+        "zeroed / store emptied) leaves the serialised value unchanged, is not seen; volatile columns (localtime) have no measurement; "
+        "WaitCondition on reference columns and pass-through tables are not in the matrix; a request is taken as the union of its columns",
         "the ACCESS TABLE C14/Access.v (shared field x function x locks held) is hand-written from the source; it is only validated by the race "
         "detector stream: a field access the scenarios never execute concurrently is not validated",
         "exploration harness harness/inpkg/c14_worker.go + c14_race.go (scenario generator, stamp encoder/decoder, report parser; distinct stamp "
@@ -91,6 +104,8 @@ PROP = Prop(
         "backends, cluster mode, config reload (C20), prometheus, logging",
     ],
     assumptions=[
+        "lists oracle: the lower end of the window is the start of the run (a cache may be arbitrarily stale): 'must' = attached during the "
+        "whole run, 'may' = ever attached; only with unchanging comments / downtimes the served list is pinned to one backend state",
         "threads follow the static discipline [safe] (proved for the reader / delta / comment diff / rebuild roles as programs; whether the Go "
         "code follows it is what the access table and the race stream are about)",
         "a rebuild's data set is reachable only through the peer's data pointer (publication = one atomic store)",
@@ -98,5 +113,6 @@ PROP = Prop(
         "version stamps check this on the implementation",
         "the update loop of a peer is one goroutine (as in lmd); additional updaters are the WaitCondition / spin-up goroutines of clients",
     ],
-    gen=False,
+    gen=True, gen_files=["Locks.v"],
+    extra_targets=["theories/C14/GenLocksProofs.v"],
 )
